@@ -125,6 +125,10 @@ var c20PairKinds = []struct{ Name, SQLa, SQLb, TypesB string }{
 	{"func_types", "SELECT id, upper(s) AS us, abs(a - b) AS d FROM stream", "SELECT id, upper(s) AS us, abs(a - b) AS d FROM stream WHERE a >= 0", "float"},
 	{"analytic", "SELECT id, lag(a) AS la, acc_sum(a) OVER (PARTITION BY p) AS s FROM stream", "SELECT id, lag(a) AS la, acc_sum(a) OVER (PARTITION BY p) AS s FROM stream", "int"},
 	{"where_only", "SELECT id, a FROM stream WHERE a + b > 4", "SELECT id, b FROM stream WHERE a + b > 4", "string"},
+	// the same sub-expression text as a function / aggregate argument, over numbers in one instance
+	// and strings in the other (facts about an expression remembered per text would leak)
+	{"func_arg_types", "SELECT id, abs(a + b) AS r, round(a + b, 1) AS q FROM stream", "SELECT id, concat(a + b, '!') AS r, upper(a + b) AS q FROM stream", "string"},
+	{"agg_arg_types", "SELECT p, sum(a + b) AS r, count(*) AS c FROM stream GROUP BY p, CountingWindow(2)", "SELECT p, max(a + b) AS r, count(*) AS c FROM stream GROUP BY p, CountingWindow(2)", "string"},
 	// near twins: different queries whose expression texts differ only in letter case or spacing
 	// (process-wide caches keyed by a normalised form of the text would confuse them)
 	{"near_literal_case", "SELECT id, concat(s, '-Alert') AS t FROM stream", "SELECT id, concat(s, '-alert') AS t FROM stream", "int"},
